@@ -235,20 +235,20 @@ Proof.
       destruct ((p_cktype (d_p s) =? CK_NULL) || p_md_only (d_p s)); mrun_in H; [inversion H; reflexivity|].
       pose proof (vfs_checksum_state (p_cktype (d_p s)) (p_file_name (d_p s)) (p_progress (d_p s)) s) as Hs.
       unfold bind at 1 in H. destruct (vfs_checksum _ _ _ s) as [s1 [crc|e]]; [|discriminate H]. cbn [fst] in Hs. subst s1.
-      destruct (bytes_eqb crc (p_crc32 (d_p s))); mrun_in H; [inversion H; reflexivity|].
+      destruct (bytes_eqb crc (p_crc32 (d_p s)) && _); mrun_in H; [inversion H; reflexivity|].
       exfalso. unfold bind in H. destruct (declare_fault C_CHECKSUM_FAILURE s) as [s2 [fh|e]]; discriminate H. }
     unfold checksum_verify in H. mrun_in H.
     destruct ((p_cktype (d_p s) =? CK_NULL) || p_md_only (d_p s)); mrun_in H; [discriminate H|].
     pose proof (vfs_checksum_state (p_cktype (d_p s)) (p_file_name (d_p s)) (p_progress (d_p s)) s) as Hs.
     unfold bind at 1 in H. destruct (vfs_checksum _ _ _ s) as [s1 [crc|e]]; [|discriminate H]. cbn [fst] in Hs. subst s1.
-    destruct (bytes_eqb crc (p_crc32 (d_p s))); mrun_in H; [discriminate H|].
+    destruct (bytes_eqb crc (p_crc32 (d_p s)) && _); mrun_in H; [discriminate H|].
     unfold bind in H. destruct (declare_fault C_CHECKSUM_FAILURE s) as [s2 [fh|e]]; [|discriminate H].
     cbn [fst] in HD. inversion H; subst s'. exact HD.
   - unfold checksum_verify in H. mrun_in H.
     destruct ((p_cktype (d_p s) =? CK_NULL) || p_md_only (d_p s)); mrun_in H; [discriminate H|].
     pose proof (vfs_checksum_state (p_cktype (d_p s)) (p_file_name (d_p s)) (p_progress (d_p s)) s) as Hs.
     unfold bind at 1 in H. destruct (vfs_checksum _ _ _ s) as [s1 [crc|e1]]; cbn [fst] in Hs; subst s1.
-    + destruct (bytes_eqb crc (p_crc32 (d_p s))); mrun_in H; [discriminate H|].
+    + destruct (bytes_eqb crc (p_crc32 (d_p s)) && _); mrun_in H; [discriminate H|].
       unfold bind in H. destruct (declare_fault C_CHECKSUM_FAILURE s) as [s2 [fh|e2]]; [discriminate H|].
       cbn [fst] in HD. inversion H; subst s'. exact HD.
     + inversion H; subst s'. apply HXY, HX.
@@ -282,8 +282,13 @@ Proof. intros. pw. Qed.
 Lemma ni_handle_metadata_packet : forall h cl ck sz names msgs, pres NI NI (handle_metadata_packet h cl ck sz names msgs).
 Proof. intros. pw. Qed.
 #[local] Hint Resolve ni_handle_metadata_packet : pw.
-Lemma ni_handle_eof_without_previous_metadata : forall ck sz, pres NI NI (handle_eof_without_previous_metadata ck sz).
-Proof. intros. pw. Qed.
+Lemma ni_handle_eof_without_previous_metadata : forall c ck sz, pres NI NI (handle_eof_without_previous_metadata c ck sz).
+Proof.
+  intros c ck sz. unfold handle_eof_without_previous_metadata. destruct (c =? C_NO_ERROR) eqn:Hc; cbn [negb].
+  - pw.
+  - (* (F32 repair) an EOF (cancel): the cancel branch of handle_eof_pdu verifies nothing *)
+    unfold handle_eof_pdu. rewrite Hc. pw.
+Qed.
 #[local] Hint Resolve ni_handle_eof_without_previous_metadata : pw.
 Lemma ni_handle_fd_without_previous_metadata : forall f o d, pres NI NI (handle_fd_without_previous_metadata f o d).
 Proof. intros. pw. Qed.
@@ -1347,11 +1352,12 @@ Module CounterExamples.
   Definition cfg0 : lcfg := mkLcfg 1 1 false false false false [] 100 [r0].
   Definition hin (mode : Z) : hdr := mkHdr TOWARDS_RECEIVER mode false false 2 1 1 0 1.
   Definition hout (mode : Z) : hdr := set_dir TOWARDS_SENDER (hin mode).
-  (* busy with transaction (2, 0): file [7] = 1 2 3 4, modular checksum 1 2 3 4 over 4 bytes recorded *)
+  (* busy with transaction (2, 0): file [7] = 1 2 3 4, modular checksum 1 2 3 4 over 4 bytes recorded, EOF file size 4
+     (not more than the progress: since the F31 repair the verification fails otherwise) *)
   Definition st0 (step mode deliv : Z) (tr : tracker) (ct : option timer) : dst :=
     mkDst cfg0 ST_BUSY step (Some (2, 0)) 0 []
       (mkDP (Some (2, 0)) (Some r0) ct 0 false CK_MODULAR (mkFin deliv FS_RETAINED C_NO_ERROR None) DISP_COMPLETED (hout mode)
-            4 [1; 2; 3; 4] (Some 4) [7] (Some 8) false tr false 0 0 false None 0 None 0)
+            4 [1; 2; 3; 4] (Some 4) [7] (Some 4) false tr false 0 0 false None 0 None 0)
       (mkEnv 0 [([7], File [1; 2; 3; 4])] false []).
   Definition fd : pdu := PFileData (hin ACKED) 0 [9; 9; 9; 9].
 
